@@ -33,3 +33,12 @@ Definition agree (K : cfg) (ops : list op) : bool * bool :=
             | RErr :: x', RErr :: y' => leq x' y'
             | _, _ => false end) d d') && eqb a' b'
       | _, _ => false end) (model_obs K ops) (spec_obs K ops)).
+
+(** the pool cache alone (tied to pool.rs PreparedStatementCache at library level) *)
+Inductive pop := PGet (st : nat) | PProm (st : nat).
+Fixpoint pool_run (K : cfg) (w : world) (ops : list pop) : list (option nat) :=
+  match ops with
+  | [] => []
+  | PGet st :: r => let '(w1, (g, _)) := pool_get_or_insert K w st in Some g :: pool_run K w1 r
+  | PProm st :: r => None :: pool_run K (mkWorld (clients w) (servers w) (ppromote (plru w) (hash K st)) (gdef w)) r
+  end.
